@@ -157,9 +157,17 @@ func (s *Sched) spawn(name string, f func()) *G {
 }
 
 func callerSite(skip int) string {
-	_, file, line, ok := runtime.Caller(skip)
+	pc, file, line, ok := runtime.Caller(skip)
 	if !ok {
 		return "?"
+	}
+	fn := ""
+	if f := runtime.FuncForPC(pc); f != nil {
+		fn = f.Name()
+		if i := strings.LastIndex(fn, "/"); i >= 0 {
+			fn = fn[i+1:]
+		}
+		fn = " " + fn
 	}
 	if i := strings.LastIndex(file, "/pkg/"); i >= 0 {
 		file = file[i+1:]
@@ -168,7 +176,7 @@ func callerSite(skip int) string {
 	} else if i := strings.LastIndex(file, "/"); i >= 0 {
 		file = file[i+1:]
 	}
-	return fmt.Sprintf("%s:%d", file, line)
+	return fmt.Sprintf("%s:%d%s", file, line, fn)
 }
 
 // Go starts f as a scheduled goroutine. It is a scheduling point.
@@ -475,6 +483,9 @@ func (s *Sched) Run(main func()) (out Outcome) {
 		// ("keep running the current goroutine") can see it.
 	}
 }
+
+// AliveDesc describes every goroutine that has not finished (diagnostics and leak census).
+func (s *Sched) AliveDesc() []string { return Describe(s.alive()) }
 
 func (s *Sched) alive() []*G {
 	var a []*G
